@@ -1072,6 +1072,7 @@ where
     // We need to group them as: {, [ident = expr], comma, [ident = expr], }
 
     let mut fields: Vec<DocBuilder<'a, D, A>> = Vec::new();
+    let mut commas: Vec<DocBuilder<'a, D, A>> = Vec::new();
     let mut current_field = allocator.nil();
     let mut has_current_field = false;
     let mut open_doc = allocator.nil();
@@ -1106,6 +1107,8 @@ where
                         current_field = allocator.nil();
                         has_current_field = false;
                     }
+                    // Keep the comma as written, with the comments attached to it
+                    commas.push(emit_token_with_trivia(*token_index, ctx, allocator));
                     continue;
                 }
                 TokenKind::Assign if in_body => {
@@ -1140,7 +1143,17 @@ where
     if fields.is_empty() {
         open_doc.append(close_doc)
     } else {
-        let fields_doc = allocator.intersperse(fields, breakable_comma(allocator));
+        let n_fields = fields.len();
+        let mut commas = commas.into_iter();
+        let mut fields_doc = allocator.nil();
+        for (i, field) in fields.into_iter().enumerate() {
+            fields_doc = fields_doc.append(field);
+            if i + 1 < n_fields {
+                fields_doc = fields_doc
+                    .append(commas.next().unwrap_or_else(|| allocator.text(",")))
+                    .append(allocator.softline());
+            }
+        }
         open_doc
             .append(fields_doc.nest(get_indent_size() as isize).group())
             .append(close_doc)
@@ -1545,8 +1558,13 @@ where
     D::Doc: Clone + Pretty<'a, D, A>,
     A: Clone,
 {
-    // Collect items between delimiters, excluding commas
+    // Collect items between delimiters, excluding commas. An item may consist of several sibling nodes
+    // (a parameter name followed by its type annotation or default value, `key = pattern` in a record
+    // pattern), so consecutive children up to the next comma form one item.
     let mut items = Vec::new();
+    // The separating commas as written, with the comments attached to them
+    let mut commas = Vec::new();
+    let mut current: Option<DocBuilder<'a, D, A>> = None;
     let mut open_doc = allocator.nil();
     let mut close_doc = allocator.nil();
     let mut found_open = false;
@@ -1566,7 +1584,8 @@ where
                     continue;
                 }
                 TokenKind::Comma => {
-                    // Skip commas - we'll add them with proper breaking
+                    items.extend(current.take());
+                    commas.push(emit_token_with_trivia(*token_index, ctx, allocator));
                     continue;
                 }
                 _ => {}
@@ -1574,16 +1593,36 @@ where
         }
 
         if found_open {
-            items.push(cst_to_doc(child, ctx, allocator));
+            let doc = cst_to_doc(child, ctx, allocator);
+            current = Some(match current.take() {
+                Some(item) => item.append(doc),
+                None => doc,
+            });
         }
     }
+    items.extend(current.take());
 
     if items.is_empty() {
         open_doc.append(close_doc)
     } else {
         // Use softline between items (after comma), but not after opening delimiter
         // This prioritizes breaking at binary operators over breaking at function call boundaries
-        let items_doc = allocator.intersperse(items, breakable_comma(allocator));
+        let n_items = items.len();
+        let mut commas = commas.into_iter();
+        let mut items_doc = allocator.nil();
+        for (i, item) in items.into_iter().enumerate() {
+            items_doc = items_doc.append(item);
+            let comma = commas.next();
+            if i + 1 < n_items {
+                items_doc = items_doc
+                    .append(comma.unwrap_or_else(|| allocator.text(",")))
+                    .append(allocator.softline());
+            } else if n_items == 1 {
+                // `(x,)` is a one-element tuple (expression, pattern or type); without the comma it
+                // would be a parenthesised item
+                items_doc = items_doc.append(comma.unwrap_or_else(|| allocator.nil()));
+            }
+        }
         // Wrap in group for proper line breaking
         open_doc
             .append(items_doc.nest(get_indent_size() as isize))
